@@ -228,6 +228,18 @@ class Proxy(threading.Thread):
         self.closed = {"c2s": False, "s2c": False}
         self.stalled = False
         self.last_activity = time.monotonic()
+        self.lock = threading.Lock()     # held while bytes are taken off a socket and turned into log entries
+
+    def settled(self, d):
+        """True when every byte the sender of direction d has written so far has been taken off its socket and cut into records
+        (the log is complete for what was written); False while bytes are pending or a partial record is buffered"""
+        import fcntl, termios, struct
+        with self.lock:
+            try:
+                pending = struct.unpack("i", fcntl.ioctl(self.socks[d][0].fileno(), termios.FIONREAD, b"\0\0\0\0"))[0]
+            except OSError:
+                return False
+            return pending == 0 and not self.buf[d]
 
     def _deliver(self, d, data):
         """queue bytes for direction d; they are written by the main loop without ever blocking"""
@@ -287,6 +299,7 @@ class Proxy(threading.Thread):
                 d = "c2s" if s is s_inner else "s2c"
                 self._pump(d)
             for s in r:
+              with self.lock:
                 d = "c2s" if s is c_inner else "s2c"
                 try:
                     chunk = s.recv(65536)
